@@ -149,58 +149,3 @@ pub fn c17a_or_unrepresentable() {
 }
 
 include!("gen/c17_inst.rs");
-// ---- C17b: the list-level (cartesian) merge used for nested @media rules ----
-
-use grass_compiler::verif::media_merge_lists;
-
-fn sat_list(l: &[MediaQuery], env: Env) -> bool {
-    let mut i = 0;
-    while i < l.len() {
-        if sat(&l[i], env) { return true; }
-        i += 1;
-    }
-    false
-}
-
-/// outer list of NO queries, inner list of NI queries; every query has shape S (see any_query) and NC conditions
-pub fn check_lists<const NO: usize, const NI: usize, const S: u8, const NC: usize>() {
-    let mut outer = Vec::with_capacity(NO);
-    let mut inner = Vec::with_capacity(NI);
-    let mut k = 0;
-    while k < NO { outer.push(any_query::<S, NC>()); k += 1; }
-    let mut k = 0;
-    while k < NI { inner.push(any_query::<S, NC>()); k += 1; }
-    let mut k = 0;
-    while k < NO { kani::assume(!(outer[k].modifier.is_some() && is_all(&outer[k]))); k += 1; }
-    let mut k = 0;
-    while k < NI { kani::assume(!(inner[k].modifier.is_some() && is_all(&inner[k]))); k += 1; }
-    let env = Env { ty: kani::any(), feat: kani::any() };
-    kani::assume(env.ty <= 2);
-    let want = sat_list(&outer, env) && sat_list(&inner, env);
-    match media_merge_lists(&outer, &inner) {
-        Some(merged) => {
-            assert!(merged.len() <= NO * NI, "C17b: merged list longer than the cartesian product");
-            assert!(sat_list(&merged, env) == want, "C17b: the merged query list is not the intersection of the two lists");
-            kani::cover!(merged.len() >= 2, "two_results");
-            kani::cover!(merged.len() == 1 && NO * NI >= 2, "one_dropped");
-            core::mem::forget(merged);
-        }
-        None => { kani::cover!(true, "unrepresentable"); }
-    }
-    kani::cover!(true, "end");
-    core::mem::forget(outer);
-    core::mem::forget(inner);
-}
-
-macro_rules! linst {
-    ($name:ident, $no:expr, $ni:expr, $s:expr, $nc:expr) => {
-        #[kani::proof]
-        #[kani::unwind(8)]
-        pub fn $name() { check_lists::<$no, $ni, $s, $nc>() }
-    };
-}
-// shapes: 0 = conditions only, 1 = type, 2 = `not` type, 3 = `only` type
-linst!(c17b_lists_1x2_t0, 1, 2, 1, 0);
-linst!(c17b_lists_2x1_t0, 2, 1, 1, 0);
-linst!(c17b_lists_1x2_t1, 1, 2, 1, 1);
-linst!(c17b_lists_2x2_t0, 2, 2, 1, 0);
